@@ -1,0 +1,13 @@
+//go:build verif
+
+// Contracts for package types of 23-commitment (comment-only; read by /verif's tibcvc).
+package types
+
+//@ // MerkleMember: the chained ICS-23 membership relation between a proof list, the proof specs, a root hash, the
+//@ // two-element key path [store prefix, key] and a value (A-CRYPTO for ics23; the loop that chains the proofs is
+//@ // verifyChainedMembershipProof, see C08 notes).
+//@ spec MerkleMember(proofs: obj, specs: obj, root: str, npath: i64, p0: str, p1: str, value: str): bool
+//@ extern (MerkleProof).VerifyMembership(specs, root, path, value) (err)
+//@   dyn root = MerkleRoot
+//@   dyn path = MerklePath
+//@   ensures rel: err == nil <==> MerkleMember(self.Proofs, specs, str(root.Hash), len(path.KeyPath), seqstr(path.KeyPath, 0), seqstr(path.KeyPath, 1), str(value))
